@@ -42,7 +42,7 @@ Proof. destruct t; reflexivity. Qed.
 Lemma forallb_tbl_in_mono lo hi hi' ts : (hi <= hi')%N ->
   forallb (tbl_in lo hi) ts = true -> forallb (tbl_in lo hi') ts = true.
 Proof.
-  intros Hle. apply forallb_Forall_imp. apply Forall_forall. intros t _. apply tbl_in_mono; lia.
+  intros Hle. apply forallb_Forall_imp. apply Forall_forall. intros t _. apply tbl_in_mono; nlia.
 Qed.
 
 (* ---- descend_path ------------------------------------------------------------------------------------------ *)
@@ -55,7 +55,7 @@ Lemma wta_in lo hi hi' {X} (Q : X -> Prop) : (hi <= hi')%N ->
 Proof.
   intros Hle. induction path as [|k ptl IH]; intros t dotted f Ht Hp Hf; cbn [with_table_at]; [apply Hf, Ht|].
   cbn [keys_in forallb] in Hp. apply andb_true_iff in Hp as [Hk Hptl].
-  assert (Ht' : tbl_in lo hi' t = true) by (eapply tbl_in_mono; [| |exact Ht]; lia).
+  assert (Ht' : tbl_in lo hi' t = true) by (eapply tbl_in_mono; [| |exact Ht]; nlia).
   pose proof (tbl_in_get_items _ _ _ Ht) as Hi. pose proof (tbl_in_get_items _ _ _ Ht') as Hi'.
   destruct (kv_get (t_items t) (k_key k)) as [[k' it]|] eqn:G.
   - destruct (items_in_get _ _ _ _ _ _ Hi G) as [_ Hit]. destruct it as [|v|sub|ts sp]; try exact I.
@@ -70,7 +70,7 @@ Proof.
       destruct IH as [Hs Hq]. cbn [cres_post]. split; [|exact Hq].
       apply tbl_in_set_items; [exact Ht'|]. apply items_in_set; [exact Hi'|]. rewrite item_in_aot.
       rewrite forallb_rev. cbn [forallb]. rewrite Hs, (forallb_tbl_in_mono _ _ _ _ Hle Hr). cbn [andb].
-      eapply osp_in_mono; [| |exact Hsp]; lia.
+      eapply osp_in_mono; [| |exact Hsp]; nlia.
   - specialize (IH (Tbl [] decor_default true dotted None None) dotted f eq_refl Hptl Hf).
     destruct (with_table_at _ ptl dotted f) as [[sub' x]| |]; try exact I.
     destruct IH as [Hs Hq]. cbn [cres_post]. split; [|exact Hq].
@@ -110,20 +110,20 @@ Qed.
 
 Lemma st_in_mono p p' st : (p <= p')%N -> st_in p st -> st_in p' st.
 Proof.
-  intros Hle (a & b & S & H1 & H2 & Hr & Hc & Ht & Hp). exists a, b. repeat split; auto; try lia.
-  - eapply tbl_in_mono; [| |exact Hc]; lia.
-  - eapply osp_in_mono; [| |exact Ht]; lia.
+  intros Hle (a & b & S & H1 & H2 & Hr & Hc & Ht & Hp). exists a, b. repeat split; auto; try nlia.
+  - eapply tbl_in_mono; [| |exact Hc]; nlia.
+  - eapply osp_in_mono; [| |exact Ht]; nlia.
 Qed.
 
 Lemma st_in_new : st_in 0 state_new.
-Proof. exists 0%N, 0%N. cbn. repeat split; lia. Qed.
+Proof. exists 0%N, 0%N. cbn. repeat split; nlia. Qed.
 
 Lemma st_in_on_ws p p' st : st_in p st -> (p <= p')%N -> st_in p' (on_ws st (p, p')).
 Proof.
   intros (a & b & S & H1 & H2 & Hr & Hc & Ht & Hp) Hle. exists a, b. unfold on_ws; cbn [st_current st_root st_trailing st_path].
-  repeat split; auto; try lia.
-  - eapply tbl_in_mono; [| |exact Hc]; lia.
-  - destruct (st_trailing st) as [old|]; cbn [osp_in] in *; unfold sp_in in *; cbn [fst snd]; lia.
+  repeat split; auto; try nlia.
+  - eapply tbl_in_mono; [| |exact Hc]; nlia.
+  - destruct (st_trailing st) as [old|]; cbn [osp_in] in *; unfold sp_in in *; cbn [fst snd]; nlia.
 Qed.
 
 Lemma value_span_in lo hi v sp : item_in lo hi v = true -> item_span v = Some sp -> sp_in lo hi sp = true.
@@ -165,38 +165,39 @@ Proof.
   assert (Hkpre : osp_in p mid kpre = true).
   { subst kpre. destruct (d_prefix (k_leaf k)) as [r|] eqn:D; [|reflexivity]. apply (key_in_leaf_prefix _ _ _ _ Hk D). }
   assert (Hprefix : osp_in 0 p' prefix = true).
-  { subst prefix. destruct (st_trailing st) as [p0|], kpre as [kk|]; cbn [osp_in] in *; unfold sp_in in *; cbn [fst snd]; lia. }
+  { subst prefix. destruct (st_trailing st) as [p0|], kpre as [kk|]; cbn [osp_in] in *; unfold sp_in in *; cbn [fst snd]; nlia. }
   assert (Hk' : key_in 0 p' k' = true).
-  { subst k'. apply key_in_set_leaf; [eapply key_in_mono; [| |exact Hk]; lia|].
+  { subst k'. apply key_in_set_leaf; [eapply key_in_mono; [| |exact Hk]; nlia|].
     unfold decor_in; cbn [d_prefix d_suffix oraw_in]. apply andb_true_iff. split.
     - destruct prefix as [sp|]; [apply raw_with_span_in, Hprefix|reflexivity].
-    - eapply oraw_in_mono; [| |apply (key_in_leaf_suffix _ _ _ Hk)]; lia. }
+    - eapply oraw_in_mono; [| |apply (key_in_leaf_suffix _ _ _ Hk)]; nlia. }
   assert (Hcur : exists b', t_span cur = Some (a, b') /\ (b <= b')%N /\ (b' <= p')%N /\ tbl_in 0 p' cur = true
                             /\ (forall e, item_end v = Some e -> b' = e)).
-  { subst cur. rewrite S. assert (Hc' : tbl_in 0 p' (st_current st) = true) by (eapply tbl_in_mono; [| |exact Hc]; lia).
+  { subst cur. rewrite S. assert (Hc' : tbl_in 0 p' (st_current st) = true) by (eapply tbl_in_mono; [| |exact Hc]; nlia).
     unfold item_end. destruct (item_span v) as [vs|] eqn:V.
     - pose proof (value_span_in _ _ _ _ Hv V) as Hvs. unfold sp_in in Hvs. exists (snd vs). rewrite span_set_span. cbn [fst].
-      repeat split; try lia; [|intros e X; inversion X; reflexivity]. apply tbl_in_set_span; [exact Hc'|].
-      cbn [osp_in]. unfold sp_in; cbn [fst snd]. lia.
-    - exists b. repeat split; auto; try lia. discriminate. }
+      assert (A1 : (b <= snd vs)%N) by (nlia). assert (A2 : (snd vs <= p')%N) by (nlia).
+      split; [reflexivity|]. split; [exact A1|]. split; [exact A2|]. split; [|intros e X; inversion X; reflexivity].
+      apply tbl_in_set_span; [exact Hc'|]. cbn [osp_in]. apply sp_in_pair; nlia.
+    - exists b. split; [exact S|]. split; [nlia|]. split; [nlia|]. split; [exact Hc'|discriminate]. }
   destruct Hcur as (b' & S' & Hb1 & Hb2 & Hcur & Hend).
   match type of E with context [with_table_at cur path true ?f] =>
     pose proof (wta_in 0 p' p' (fun _ : unit => True) (N.le_refl _) path cur true f Hcur) as W;
     pose proof (wta_span path cur true f) as WS end.
   match type of W with ?A -> ?B -> _ => assert (X1 : A); [|assert (X2 : B); [|specialize (W X1 X2)]] end.
-  { eapply keys_in_mono; [| |exact Hpath]; lia. }
+  { eapply keys_in_mono; [| |exact Hpath]; nlia. }
   { intros t Ht0. destruct (Bool.eqb _ _); [exact I|]. destruct (kv_get _ _); [exact I|].
     cbn [cres_post]. split; [|exact I]. apply tbl_in_set_items; [exact Ht0|].
-    apply items_in_push; [apply tbl_in_get_items, Ht0|exact Hk'|]. eapply item_in_mono; [| |exact Hv]; lia. }
+    apply items_in_push; [apply tbl_in_get_items, Ht0|exact Hk'|]. eapply item_in_mono; [| |exact Hv]; nlia. }
   match type of E with match ?r with _ => _ end = _ => destruct r as [[cur' u]| |] eqn:R; try discriminate E end.
   inversion E; subst st'. cbn [cres_post] in W. destruct W as [W _].
   assert (S'' : t_span cur' = Some (a, b')).
   { rewrite <- S'. eapply WS; [|reflexivity]. intros t t0 y Y. destruct (Bool.eqb _ _); [discriminate|].
     destruct (kv_get _ _); [discriminate|]. inversion Y; subst. apply span_set_items. }
   cbn [st_current]. split.
-  - exists a, b'. cbn [st_current st_root st_trailing st_path]. repeat split; auto; try lia.
-    + eapply tbl_in_mono; [| |exact Hr]; lia.
-    + eapply keys_in_mono; [| |exact Hp]; lia.
+  - exists a, b'. cbn [st_current st_root st_trailing st_path]. repeat split; auto; try nlia.
+    + eapply tbl_in_mono; [| |exact Hr]; nlia.
+    + eapply keys_in_mono; [| |exact Hp]; nlia.
   - intros e He. exists a. rewrite S''. rewrite (Hend e He). reflexivity.
 Qed.
 
@@ -216,7 +217,7 @@ Proof.
   apply IH; auto. destruct (t_dotted sub); [|exact Hit]. destruct (key_span k) as [ks|] eqn:K; [|exact Hit].
   destruct ve as [e|]; [|exact Hit]. destruct (Hve e eq_refl) as [Ha Hb]. pose proof (key_span_in _ _ _ _ Hk K) as Hks.
   apply tbl_in_set_span; [exact Hit|]. rewrite tbl_in_items in Hit. apply andb3 in Hit as (_ & _ & Hsp).
-  apply widen_in; [exact Hsp| | |exact Hb]; unfold sp_in in *; lia.
+  apply widen_in; [exact Hsp| | |exact Hb]; unfold sp_in in *; nlia.
 Qed.
 
 Lemma on_keyval_sp_in p mid p' st path k v st' :
@@ -228,7 +229,7 @@ Proof.
   destruct (on_keyval st path k v) as [st1| |] eqn:R; try discriminate E. inversion E; subst st'. clear E.
   destruct (on_keyval_in _ _ _ _ _ _ _ _ Hst L1 L2 Hpath Hk Hv R) as [(a & b & S & H1 & H2 & Hr & Hc & Ht & Hp) _].
   destruct (set_dotted_spans_in 0 mid p' path (st_current st1) (item_end v) Hc) as [D1 D2].
-  - eapply keys_in_mono; [| |exact Hpath]; lia.
+  - eapply keys_in_mono; [| |exact Hpath]; nlia.
   - exact L2.
   - intros e He. eapply item_end_in in He; [|exact Hv]. exact He.
   - exists a, b. cbn [st_current st_root st_trailing st_path]. rewrite D2. repeat split; auto.
@@ -239,20 +240,20 @@ Lemma f_fin_std_in b p k table parent : (b <= p)%N ->
   tbl_in 0 p table = true -> key_in 0 b k = true -> tbl_in 0 b parent = true ->
   cres_post (fun p' (_ : unit) => tbl_in 0 p p' = true /\ True) (f_fin_std k table parent).
 Proof.
-  intros Hle Ht Hk Hp. assert (Hp' : tbl_in 0 p parent = true) by (eapply tbl_in_mono; [| |exact Hp]; lia).
+  intros Hle Ht Hk Hp. assert (Hp' : tbl_in 0 p parent = true) by (eapply tbl_in_mono; [| |exact Hp]; nlia).
   pose proof (tbl_in_get_items _ _ _ Hp') as Hi. unfold f_fin_std.
   destruct (kv_get (t_items parent) (k_key k)) as [[k' it]|].
   - destruct it as [|v|t|ts sp]; try exact I. destruct (t_implicit t); [|exact I]. cbn [cres_post]. split; [|exact I].
     apply tbl_in_set_items; [exact Hp'|]. apply items_in_set; [exact Hi|]. rewrite item_in_table. exact Ht.
   - cbn [cres_post]. split; [|exact I]. apply tbl_in_set_items; [exact Hp'|].
-    apply items_in_push; [exact Hi| |rewrite item_in_table; exact Ht]. eapply key_in_mono; [| |exact Hk]; lia.
+    apply items_in_push; [exact Hi| |rewrite item_in_table; exact Ht]. eapply key_in_mono; [| |exact Hk]; nlia.
 Qed.
 
 Lemma f_fin_aot_in a b p k table parent : (a <= b)%N -> (b <= p)%N ->
   tbl_in 0 p table = true -> t_span table = Some (a, b) -> key_in 0 b k = true -> tbl_in 0 b parent = true ->
   cres_post (fun p' (_ : unit) => tbl_in 0 p p' = true /\ True) (f_fin_aot k table parent).
 Proof.
-  intros Hab Hle Ht S Hk Hp. assert (Hp' : tbl_in 0 p parent = true) by (eapply tbl_in_mono; [| |exact Hp]; lia).
+  intros Hab Hle Ht S Hk Hp. assert (Hp' : tbl_in 0 p parent = true) by (eapply tbl_in_mono; [| |exact Hp]; nlia).
   pose proof (tbl_in_get_items _ _ _ Hp') as Hi. pose proof (tbl_in_get_items _ _ _ Hp) as Hib. unfold f_fin_aot.
   destruct (kv_get (t_items parent) (k_key k)) as [[k' it]|] eqn:G.
   - destruct (items_in_get _ _ _ _ _ _ Hib G) as [_ Hit]. destruct it as [|v|t|ts sp]; try exact I. cbv zeta.
@@ -260,13 +261,13 @@ Proof.
     rewrite item_in_aot in *. apply andb_true_iff in Hit as [Hts _]. rewrite forallb_app. cbn [forallb].
     rewrite (forallb_tbl_in_mono _ _ _ _ Hle Hts), Ht. cbn [andb].
     destruct ts as [|first tl]; cbn [app].
-    + rewrite S. cbn [union_span osp_in fst snd]. unfold sp_in; cbn [fst snd]. lia.
+    + rewrite S. cbn [union_span osp_in fst snd]. unfold sp_in; cbn [fst snd]. nlia.
     + cbn [forallb] in Hts. apply andb_true_iff in Hts as [Hf _]. rewrite tbl_in_items in Hf. apply andb3 in Hf as (_ & _ & Hf).
       rewrite S. destruct (t_span first) as [x|]; [|reflexivity]. cbn [union_span osp_in fst snd] in *.
-      unfold sp_in in *; cbn [fst snd]. lia.
+      unfold sp_in in *; cbn [fst snd]. nlia.
   - cbn [cres_post]. split; [|exact I]. apply tbl_in_set_items; [exact Hp'|].
-    apply items_in_push; [exact Hi|eapply key_in_mono; [| |exact Hk]; lia|].
-    rewrite item_in_aot. cbn [forallb]. rewrite Ht, S. cbn [union_span osp_in fst snd andb]. unfold sp_in; cbn [fst snd]. lia.
+    apply items_in_push; [exact Hi|eapply key_in_mono; [| |exact Hk]; nlia|].
+    rewrite item_in_aot. cbn [forallb]. rewrite Ht, S. cbn [union_span osp_in fst snd andb]. unfold sp_in; cbn [fst snd]. nlia.
 Qed.
 
 Lemma pop_key_none (p : list key) : pop_key p = None -> p = [].
@@ -285,8 +286,8 @@ Proof.
   - rewrite (finalize_eq _ _ _ _ _ _ _ _ P) in E. destruct (pop_key_in _ _ _ _ _ Hp P) as [Hpp Hk].
     assert (W : cres_post (fun p' (_ : unit) => tbl_in 0 p p' = true /\ True)
                           (with_table_at root ppath false (if ia then f_fin_aot k cur else f_fin_std k cur))).
-    { apply (wta_in 0 b p (fun _ : unit => True) H2); [exact Hr|eapply keys_in_mono; [| |exact Hpp]; lia|].
-      intros parent Hpar. destruct ia; [eapply f_fin_aot_in; eauto|eapply f_fin_std_in; eauto]. }
+    { apply (wta_in 0 b p (fun _ : unit => True) H2); [exact Hr|eapply keys_in_mono; [| |exact Hpp]; nlia|].
+      intros parent Hpar. destruct ia; [apply (f_fin_aot_in a b p); assumption|apply (f_fin_std_in b p); assumption]. }
     destruct (with_table_at root ppath false _) as [[root' u]| |]; try discriminate E. inversion E; subst st'.
     cbn [cres_post] in W. cbn [st_current st_root st_trailing st_path]. tauto.
   - unfold finalize_table in E. cbn [st_current st_root st_trailing st_path st_is_array st_position] in E. rewrite P in E.
@@ -295,21 +296,21 @@ Qed.
 
 (* a header: the state after finalize_table and take_trailing (current = tbl_new, path = []), the header
    keys in [p, e], its span (p, e), the trailing text of the header line in [e, p'] *)
-Lemma start_in ia p e p' st path dec st' :
+Lemma start_in (ia : bool) p e p' st path dec st' :
   tbl_in 0 p (st_root st) = true -> st_current st = tbl_new -> (p <= e)%N -> (e <= p')%N ->
   keys_in p e path = true -> decor_in 0 p' dec = true ->
   (if ia then start_array_table st path dec (p, e) else start_table st path dec (p, e)) = COk st' ->
   st_trailing st = None -> st_in p' st'.
 Proof.
   intros Hr Hc L1 L2 Hpath Hdec E Htr.
-  assert (Hpath0 : keys_in 0 e path = true) by (eapply keys_in_mono; [| |exact Hpath]; lia).
+  assert (Hpath0 : keys_in 0 e path = true) by (eapply keys_in_mono; [| |exact Hpath]; nlia).
   destruct ia.
   - unfold start_array_table in E. destruct (negb _); [discriminate|]. destruct (st_path st); [|discriminate].
     destruct (pop_key path) as [[ppath k]|] eqn:P; [|discriminate]. destruct (pop_key_in _ _ _ _ _ Hpath0 P) as [Hpp Hk].
     match type of E with context [with_table_at _ ppath false ?f] =>
       pose proof (wta_in 0 p e (fun _ : unit => True) L1 ppath (st_root st) false f Hr Hpp) as W end.
     match type of W with ?B -> _ => assert (X2 : B); [|specialize (W X2)] end.
-    { intros parent Hpar. assert (Hpar' : tbl_in 0 e parent = true) by (eapply tbl_in_mono; [| |exact Hpar]; lia).
+    { intros parent Hpar. assert (Hpar' : tbl_in 0 e parent = true) by (eapply tbl_in_mono; [| |exact Hpar]; nlia).
       destruct (kv_get (t_items parent) (k_key k)) as [[k' it]|].
       - destruct it; try exact I. cbn [cres_post]. auto.
       - cbn [cres_post]. split; [|exact I]. apply tbl_in_set_items; [exact Hpar'|].
@@ -317,14 +318,14 @@ Proof.
     match type of E with match ?r with _ => _ end = _ => destruct r as [[root' u]| |]; try discriminate E end.
     inversion E; subst st'. cbn [cres_post] in W. destruct W as [W _]. unfold open_table.
     exists p, e. cbn [st_current st_root st_trailing st_path t_span]. rewrite Hc, Htr. cbn [t_items tbl_new].
-    repeat split; auto. cbn [tbl_in forallb]. rewrite Hdec. cbn [andb osp_in]. apply sp_in_pair; lia.
+    repeat split; auto. cbn [tbl_in forallb]. rewrite Hdec. cbn [andb osp_in]. apply sp_in_pair; nlia.
   - unfold start_table in E. destruct (negb _); [discriminate|]. destruct (st_path st); [|discriminate].
     destruct (pop_key path) as [[ppath k]|] eqn:P; [|discriminate]. destruct (pop_key_in _ _ _ _ _ Hpath0 P) as [Hpp Hk].
     match type of E with context [with_table_at _ ppath false ?f] =>
       pose proof (wta_in 0 p e (fun x : option tbl => match x with Some t => tbl_in 0 p t = true | None => True end)
                          L1 ppath (st_root st) false f Hr Hpp) as W end.
     match type of W with ?B -> _ => assert (X2 : B); [|specialize (W X2)] end.
-    { intros parent Hpar. assert (Hpar' : tbl_in 0 e parent = true) by (eapply tbl_in_mono; [| |exact Hpar]; lia).
+    { intros parent Hpar. assert (Hpar' : tbl_in 0 e parent = true) by (eapply tbl_in_mono; [| |exact Hpar]; nlia).
       destruct (kv_get (t_items parent) (k_key k)) as [[k' it]|] eqn:G; [|cbn [cres_post]; auto].
       destruct (items_in_get _ _ _ _ _ _ (tbl_in_get_items _ _ _ Hpar) G) as [_ Hit].
       destruct it as [|v|t|ts sp]; try exact I. destruct (t_implicit t && negb (t_dotted t)); [|exact I].
@@ -334,13 +335,13 @@ Proof.
     inversion E; subst st'. cbn [cres_post] in W. destruct W as [W Wt]. unfold open_table.
     exists p, e. cbn [st_current st_root st_trailing st_path t_span]. rewrite Htr.
     repeat split; auto. rewrite tbl_in_items. cbn [t_items t_decor t_span]. rewrite Hdec. cbn [osp_in].
-    rewrite (sp_in_pair 0 p' p e) by lia. rewrite !andb_true_r.
+    rewrite (sp_in_pair 0 p' p e) by nlia. rewrite !andb_true_r.
     destruct tk as [t|].
-    + eapply items_in_mono; [| |apply tbl_in_get_items, Wt]; lia.
+    + eapply items_in_mono; [| |apply tbl_in_get_items, Wt]; nlia.
     + rewrite Hc. reflexivity.
 Qed.
 
-Lemma on_header_in ia p e p' st path trailing st' :
+Lemma on_header_in (ia : bool) p e p' st path trailing st' :
   st_in p st -> (p <= e)%N -> (e <= p')%N -> keys_in p e path = true -> sp_in e p' trailing = true ->
   on_header ia st path trailing (p, e) = COk st' -> st_in p' st'.
 Proof.
@@ -351,6 +352,6 @@ Proof.
   eapply (start_in ia p e p'); [| | | | | |exact E|]; cbn [st_root st_current st_trailing]; auto.
   apply decor_in_new.
   - rewrite Htr. destruct (st_trailing st) as [sp|]; [|reflexivity]. apply raw_with_span_in.
-    cbn [osp_in] in Ht. unfold sp_in in *. lia.
-  - apply raw_with_span_in. unfold sp_in in *. lia.
+    cbn [osp_in] in Ht. unfold sp_in in *. nlia.
+  - apply raw_with_span_in. unfold sp_in in *. nlia.
 Qed.
